@@ -437,7 +437,14 @@ def determinism_probe(grammars, seed):
 
 def main(seed, tier):
     t = common.Timer()
-    build_harness()
+    harness_ok = True
+    try:
+        build_harness()
+    except HarnessError as e:
+        # the harness uses the library's public API in main.rs's order; a tree that changed that API cannot be driven by it.
+        # The fresh-process pass (real binary) does not need it and still runs; the evidence says what was skipped.
+        harness_ok = False
+        log("WARNING: history harness does not build against this tree; history and Miri passes are SKIPPED: %s" % str(e)[-300:])
     grammars = make_grammars(seed, tier)
     det_bad, det_violations = determinism_probe(grammars, seed)
     if det_bad:
@@ -476,7 +483,7 @@ def main(seed, tier):
     hv = Rng(seed, "c10/hv")
     checked = 0
     harness_mismatch = []
-    for g in hv.sample(ok_pool, min(len(ok_pool), 4 if quick else 20)):
+    for g in (hv.sample(ok_pool, min(len(ok_pool), 4 if quick else 20)) if harness_ok else []):
         sh = hv.choice(gram.SHELLS)
         if not harness_matches_binary(g, sh):
             # either the harness misrepresents main.rs (harness error) or two different executables of the same library disagree,
@@ -484,7 +491,7 @@ def main(seed, tier):
             harness_mismatch.append("%s/%s" % (g["name"], sh))
         checked += 1
     # histories
-    nhist = 60 if quick else 1500
+    nhist = (60 if quick else 1500) if harness_ok else 0
     hjobs = []
     hr = Rng(seed, "c10/histories")
     small_pool = [g for g in ok_pool if not g["name"].endswith("mygit.usage") and not g["name"].startswith("many-subwords")]
@@ -512,7 +519,7 @@ def main(seed, tier):
         if len(samples) < 8 and out["hid"] % 20 == 0:
             samples.append({"history": out["ops"], "pool": out["pool"]})
     miri = None
-    if not quick and os.environ.get("VERIF_SKIP_MIRI", "") == "":
+    if not quick and harness_ok and os.environ.get("VERIF_SKIP_MIRI", "") == "":
         from . import c10miri
         miri = c10miri.run(seed, ok_pool)
         violations.extend(miri.pop("violations"))
@@ -542,6 +549,7 @@ def main(seed, tier):
         "distinct_histories": len(distinct_hist),
         "ambient_sources_consulted": dict(sorted(ambient.items())),
         "randomness_delivered_and_consumed_calls": consumed,
+        "history_harness_built": harness_ok,
         "harness_validated_against_binary": checked,
         "harness_vs_binary_mismatches": harness_mismatch,
         "miri": miri,
